@@ -63,7 +63,10 @@ class IterModel:
         i0, b0 = Lin.sym("idx"), Lin.sym("back")
         st.env[("S", self.front)] = ("lin", i0)
         st.env[("S", self.back)] = ("lin", b0)
-        N = Lin.const(self.N)
+        N = self.len_expr()
+        if self.symbolic:
+            st.assume(N)
+            st.assume(Lin.const(MAX_VARIANTS) - N)
         for x in (i0, b0):
             st.assume(x)
             st.assume(N - x)
@@ -76,7 +79,21 @@ class IterModel:
         return st, i0, b0, n
 
     def interp(self, name: str) -> Interp:
-        return Interp(self.methods[name]["mir"], name, self.cursors, self.table_fn, self.own)
+        sc = (self.N, Lin.sym("N")) if self.symbolic else None
+        return Interp(self.methods[name]["mir"], name, self.cursors, self.table_fn, self.own, sym_const=sc)
+
+    symbolic = False
+
+
+# rustc's VariantIdx is a u32 index with this maximum: no enum has more variants
+MAX_VARIANTS = 0xFFFF_FF00
+
+
+def _len_expr(self) -> Lin:
+    return Lin.sym("N") if self.symbolic else Lin.const(self.N)
+
+
+IterModel.len_expr = _len_expr
 
 
 def cursor(st: State, field: str) -> Optional[Lin]:
@@ -95,7 +112,7 @@ def is_none(v) -> bool:
 def analyse(model: IterModel) -> List[Obligation]:
     """All obligations O1-O3 for one witness enum."""
     obs: List[Obligation] = []
-    N = Lin.const(model.N)
+    N = model.len_expr()
     one = Lin.const(1)
 
     def add(kind, where_, text, ok, detail=""):
@@ -105,7 +122,7 @@ def analyse(model: IterModel) -> List[Obligation]:
         for c in (model.front, model.back):
             v = cursor(st, c)
             ok = v is not None and entails(st.cons, v) and entails(st.cons, N - v)
-            add("O2", where_, "0 <= %s <= %d at return" % (c, model.N), ok, "value %s" % (v,))
+            add("O2", where_, "0 <= %s <= %s at return" % (c, "N" if model.symbolic else model.N), ok, "value %s" % (v,))
 
     def run(name: str, with_n: bool, extra: List[Lin], case: str):
         ip = model.interp(name)
@@ -126,7 +143,7 @@ def analyse(model: IterModel) -> List[Obligation]:
     # ---------------- nth ----------------
     # case A: enough items remain
     ip, rets, i0, b0, n = run("nth", True, lambda i0, b0, n: [N - (i0 + n + one + b0)], "items remain")
-    if model.N > 0:
+    if model.N > 0 or model.symbolic:
         add("O3", "nth [items remain]", "some return is reachable", bool(rets))
     for st in rets:
         r = result(st)
@@ -151,7 +168,7 @@ def analyse(model: IterModel) -> List[Obligation]:
         inv_at(st, w)
     # ---------------- next_back ----------------
     ip, rets, i0, b0, _ = run("next_back", False, lambda i0, b0, n: [N - (i0 + b0 + one)], "items remain")
-    if model.N > 0:
+    if model.N > 0 or model.symbolic:
         add("O3", "next_back [items remain]", "some return is reachable", bool(rets))
     for st in rets:
         r = result(st)
@@ -178,7 +195,7 @@ def analyse(model: IterModel) -> List[Obligation]:
                               ("remaining = 0", lambda i0, b0, n: [(i0 + b0) - N], lambda i0, b0: Lin.const(0))):
         ip, rets, i0, b0, _ = run("size_hint", False, extra, case)
         w = "size_hint [%s]" % case
-        if case == "remaining = 0" or model.N > 0:
+        if case == "remaining = 0" or model.N > 0 or model.symbolic:
             add("O3", w, "some return is reachable", bool(rets))
         for st in rets:
             r = result(st)
@@ -230,6 +247,80 @@ def analyse(model: IterModel) -> List[Obligation]:
     return obs
 
 
+def normalise_mir(model: IterModel, name: str) -> str:
+    """MIR of a method with the length constant and the enum / iterator type names abstracted."""
+    import json
+    import re
+    mir = model.methods[name]["mir"]
+    txt = json.dumps({"locals": [l.get("ty") for l in mir["locals"]], "blocks": mir["blocks"]}, sort_keys=True)
+    ename = model.info.name
+    iname = model.it.struct["name"]
+    txt = txt.replace('"int": "%d"' % model.N, '"int": "N"')
+    txt = re.sub(r"\b%s\b" % re.escape(iname), "ITER", txt)
+    txt = re.sub(r"\b%s\b" % re.escape(ename), "ENUM", txt)
+    txt = re.sub(r'"fn_crate": "[^"]*"', '"fn_crate": "_"', txt)
+    txt = re.sub(r"[a-z0-9_]+::(ENUM|ITER)", r"\1", txt)
+    return txt
+
+
+def length_only_interpolated(gen) -> Optional[dict]:
+    """In the generator function that emits the iterator template, the local holding the number of enabled variants
+    (bound to a `Vec::len()` call and pushed into the template) is used only as a template interpolation."""
+    import grules as G
+    for p, f in gen.fns.items():
+        qms = G.quote_macros(f)
+        if not any(("ident", "nth") in G.quote_tokens(q) and ("ident", "next_back") in G.quote_tokens(q) for q in qms):
+            continue
+        tree = f["body"]["tree"]
+        # locals bound to `<vec>.len()`
+        lens = {}
+        for n in H.walk(tree):
+            if n.get("k") == "let" and n.get("init") is not None:
+                b = H.binding(n["pat"])
+                init = H.strip(n["init"])
+                if b and isinstance(init, dict) and init.get("k") == "mcall" and init["name"] == "len" and str(init.get("def", "")).startswith("alloc::vec::Vec"):
+                    lens[b["id"]] = b["name"]
+        if not lens:
+            return {"ok": False, "fn": gen.short(p), "bad": ["no `let n = <vec>.len()` found"]}
+        bad = []
+        n_interp = 0
+
+        def visit(n, parent_call_def):
+            nonlocal n_interp
+            if isinstance(n, list):
+                for x in n:
+                    visit(x, parent_call_def)
+                return
+            if not isinstance(n, dict):
+                return
+            if n.get("k") == "local" and n.get("id") in lens:
+                if parent_call_def == "quote::to_tokens::ToTokens::to_tokens":
+                    n_interp += 1
+                else:
+                    bad.append("%s used in %s" % (n.get("name"), parent_call_def or "a non-template expression"))
+                return
+            pc = parent_call_def
+            if n.get("k") == "call":
+                fp = H.strip(n["f"])
+                pc = fp.get("def") if isinstance(fp, dict) else None
+            elif n.get("k") == "mcall":
+                pc = n.get("def")
+            elif n.get("k") in ("ref", "deref", "block"):
+                pc = parent_call_def
+            elif n.get("k") in ("let", "macro", "semi", "expr_stmt", "loop"):
+                pc = None
+            else:
+                pc = None if n.get("k") not in ("ref",) else parent_call_def
+            for key, v in n.items():
+                if key in ("ty", "at", "base_ty", "pat"):
+                    continue
+                visit(v, pc)
+
+        visit(tree, None)
+        return {"ok": not bad and n_interp > 0, "fn": gen.short(p), "bad": bad, "interpolations": n_interp}
+    return None
+
+
 def type_witnesses() -> Tuple[List[Violation], dict]:
     """Send + Sync of the iterator regardless of the enum's type parameters (positive must compile, negative twin must not)."""
     import witness
@@ -268,6 +359,7 @@ def C05(infos: List[EnumInfo], ctx: dict):
     samples = []
     skipped = []
     seen_shapes = set()
+    analysed = []
     for info in infos:
         g = info.group("EnumIter")
         if not g or info.spec is None:
@@ -285,6 +377,7 @@ def C05(infos: List[EnumInfo], ctx: dict):
             continue
         seen_shapes.add(shape)
         programs += 1
+        analysed.append((info, model))
         try:
             obs = analyse(model)
         except (A.Unmodelled, Unrecognised) as e:
@@ -316,6 +409,57 @@ def C05(infos: List[EnumInfo], ctx: dict):
         if len(samples) < 4:
             samples.append({"enum": info.where(), "N": model.N, "front": model.front, "back": model.back,
                             "obligations": [repr(o) for o in obs[:6]]})
+    # ---- for all N: symbolic length ------------------------------------------------------------
+    # (1) the MIR of each method is uniform in N: identical across witnesses once the length constant and the type names are abstracted;
+    # (2) the generator interpolates the length without ever branching on it;  (3) O1-O3 are discharged with N a symbol, 0 <= N <= VariantIdx::MAX.
+    sym_obs: List[Obligation] = []
+    uniform_groups = {}
+    for (info, model) in analysed:
+        key = (bool(info.spec.type_params), bool(info.spec.const_params), len(info.spec.type_params), (info.unit or {}).get("_config"))
+        uniform_groups.setdefault(key, []).append((info, model))
+    n_uniform = 0
+    sym_programs = 0
+    for key, members in sorted(uniform_groups.items(), key=lambda kv: str(kv[0])):
+        big = [(i_, m_) for i_, m_ in members if m_.N >= 3]
+        if len(big) < 2:
+            continue
+        ref_i, ref_m = big[0]
+        ref_norm = {name: normalise_mir(ref_m, name) for name in ("nth", "next_back", "size_hint", "len", "next", "clone") if name in ref_m.methods}
+        for i_, m_ in big[1:]:
+            for name, rn in ref_norm.items():
+                n_uniform += 1
+                if name not in m_.methods or normalise_mir(m_, name) != rn:
+                    out.append(Violation("C05", "the generated iterator code is uniform in the number of variants (only the length constant differs)", "C05:not-uniform-in-N:%s" % name,
+                                         "MIR of %s differs between %s (N=%d) and %s (N=%d) beyond the length constant" % (name, ref_i.name, ref_m.N, i_.name, m_.N), where(i_, "EnumIter", {"method": name})))
+        # symbolic run on up to two witnesses whose N cannot be confused with the constants 0 and 1
+        for i_, m_ in big[:2]:
+            m_.symbolic = True
+            try:
+                so = analyse(m_)
+            except (A.Unmodelled, Unrecognised) as e:
+                out.append(Violation("C05", "engine A can interpret the generated MIR", "C05:uninterpretable:%s" % str(e)[:60], "cannot prove C05 (symbolic N): %s" % e, where(i_, "EnumIter")))
+                so = []
+            finally:
+                m_.symbolic = False
+            sym_programs += 1
+            sym_obs += so
+            for o in so:
+                if not o.ok:
+                    method = o.where.split(" ")[0]
+                    cause = "overflow:" + ("add" if "+" in o.text else "sub" if "-" in o.text else "other") if o.kind == "O1" else o.text[:50]
+                    out.append(Violation("C05", "%s for every number of variants N (symbolic)" % o.kind, "C05:forallN:%s:%s:%s" % (o.kind, method, cause),
+                                         "%s in %s with symbolic N: not entailed: %s (%s)" % (o.kind, o.where, o.text, o.detail[:200]), where(i_, "EnumIter", {"witness_N": m_.N, "method": method})))
+    gen_uniform = None
+    try:
+        import grules as G
+        gen = G.Gen(ctx["units"])
+        gen_uniform = length_only_interpolated(gen)
+        if gen_uniform and not gen_uniform["ok"]:
+            out.append(Violation("C05", "the generator never branches on the number of variants; it only interpolates it into the template", "C05:generator-branches-on-length",
+                                 "%s uses the length local outside a template interpolation: %s" % (gen_uniform["fn"], gen_uniform["bad"][:3]), {"generator_fn": gen_uniform["fn"]}))
+    except ToolError:
+        pass
+    all_obs += sym_obs
     # trait bounds required by strum::IntoEnumIterator
     bounds_ok = None
     for u in ctx["units"]:
@@ -344,6 +488,9 @@ def C05(infos: List[EnumInfo], ctx: dict):
                             "O4 (paper argument, DESIGN.md §5): O2+O3 are the transition relation of a double-ended cursor over [get(0)..get(N-1)]"],
            "programs": programs, "evaluations": n_ob, "distinct_nontrivial": len(set((o.kind, o.where.split(" bb")[0], o.text) for o in all_obs)),
            "samples": samples, "type_witnesses": tstats["type_witnesses"], "witness_shapes": sorted(set(str(s) for s in seen_shapes))[:40],
-           "rule": "per witness enum and method: O1 at every Assert(Overflow), O2 at every return of nth/next_back, O3 cursor specifications, under Inv and 0 <= n <= usize::MAX, case-split on whether items remain",
+           "symbolic_N": {"witnesses": sym_programs, "obligations": len(sym_obs), "discharged": sum(1 for o in sym_obs if o.ok), "mir_uniformity_comparisons": n_uniform,
+                          "generator_length_only_interpolated": gen_uniform, "range": "0 <= N <= 0xFFFFFF00 (rustc VariantIdx::MAX)"},
+           "rule": "per witness enum and method: O1 at every Assert(Overflow), O2 at every return of nth/next_back, O3 cursor specifications, under Inv and 0 <= n <= usize::MAX, case-split on whether items remain; "
+                   "then once more with the length constant read as a symbol N (all N), justified by MIR uniformity across witnesses and by the generator only interpolating the length",
            "assumptions": ["verdicts are per concrete N (the literal is concrete in MIR), for the witness enums analysed", "usize is 64 bit on the analysis host; the argument does not depend on the width"]}
     return out, cov
